@@ -126,7 +126,8 @@ def getAAsPair (ref q : List Nat) (cols : List Nat) (reg : Region) : List Varian
 
 def variantLt (a b : Variant) : Bool := a.pos < b.pos || (a.pos == b.pos && a.kind.rank < b.kind.rank)
 
-/-- drop deletions at position 0 and exact repeats of the previously kept record -/
+/-- the de-duplication of the Go code BEFORE its repair (no longer used by `getVariantsPair`; kept for the lemmas that
+compare the two): drop deletions at position 0 and exact repeats of the previously kept record -/
 def dedupAdj : Option Variant → List Variant → List Variant
   | _, [] => []
   | prev, v :: t =>
@@ -134,10 +135,29 @@ def dedupAdj : Option Variant → List Variant → List Variant
     else if prev = some v then dedupAdj prev t
     else v :: dedupAdj (some v) t
 
+/-- the inner backward scan of the repaired loop: is `v` among the kept records (newest first), looking only at the
+leading run of kept records that have the position and the kind of `v`? The scan stops at the first kept record of
+another position or kind. -/
+def seenInRun (v : Variant) : List Variant → Bool
+  | [] => false
+  | k :: t => if k.pos == v.pos && k.kind == v.kind then (k == v || seenInRun v t) else false
+
+/-- the repaired de-duplication loop over the sorted records; `keptRev` is `final`, the records kept so far, newest
+first. A deletion at position 0 is skipped; a record equal to one of the kept records of its own position and kind
+(`seenInRun`) is skipped; every other record is appended to `final`. -/
+def dedupRun (keptRev : List Variant) : List Variant → List Variant
+  | [] => keptRev.reverse
+  | v :: t =>
+    if v.kind = .del ∧ v.pos = 0 then dedupRun keptRev t
+    else if seenInRun v keptRev then dedupRun keptRev t
+    else dedupRun (v :: keptRev) t
+
+/-- all records of the pair in generation order, stably sorted by (position, kind), then passed through the
+de-duplication loop `dedupRun` -/
 def getVariantsPair (ref q : List Nat) (regions : List Region) (inter : List Nat) : List Variant :=
   let cols := refCols ref
   let all := getIndelsPair ref q ++ getNucsPair ref q cols inter ++ (regions.flatMap fun r => getAAsPair ref q cols r)
-  dedupAdj none (sortStable variantLt all)
+  dedupRun [] (sortStable variantLt all)
 
 def formatVariant (appendSnp : Bool) (v : Variant) : String :=
   match v.kind with
